@@ -249,6 +249,12 @@ impl Runner {
                     }
                 }
             }
+            if kind == "reg.redelegations" && r.ok && effects.iter().any(|e| matches!(e, Effect::Redelegate { .. })) {
+                self.bump("stranded_stake_redelegated");
+            }
+            if kind == "reg.remove" && r.ok && effects.iter().any(|e| matches!(e, Effect::Redelegate { .. })) {
+                self.bump("removals_with_redelegation");
+            }
             if post.hist.len() > pre.hist.len() {
                 self.bump("undelegations");
             }
